@@ -4,5 +4,5 @@ Require Import ExtrOcamlBasic.
 From Coq Require Import ZArith.
 From Verif Require Import SI.Model.
 Extraction Language OCaml.
-Extraction "si_model.ml" si_ok obs_ok scan_ok hist_read hist_lookup get_txn_status cacheable cs_committed cs_rolledback
+Extraction "si_model.ml" si_ok obs_ok scan_ok hist_read hist_lookup get_txn_status cacheable cs_committed cs_rolledback status_from_lock
   Z.of_N Nat.add (* types z and nat are needed by ocaml/common/common.ml *).
